@@ -116,7 +116,7 @@ def physical(model, ty, p, a, s1, s2, syms):
     raise KeyError((model, ty))
 
 
-MASS = {"H": 1, "C": 12, "O": 16, "N": 14, "e": 0}
+MASS = {"H": 1, "C": 12, "O": 16, "N": 14, "e": 0, "Cl": 35, "Mg": 24, "Si": 28}      # nucleon numbers (35Cl, 24Mg, 28Si)
 
 
 def comp_of(name):
@@ -194,6 +194,8 @@ def run(argv):
                              (["C-"], [ice("C")]), (["OH-"], [ice("OH")])]      # anions are ions too
                     if cls == "leeds":
                         cases = cases[:3] + cases[4:]
+                    # species whose atomic weights are far from whole numbers: the mass number is the nucleon count (Cl2: 70, not 71)
+                    cases += [(["Cl2"], [ice("Cl2")]), (["MgCl"], [ice("MgCl")]), (["SiCl"], [ice("SiCl")])]
                 elif ty in (201, 202, 203, 210):
                     cases = [([ice("CO")], ["CO"]), ([ice("H2O")], ["H2O"]), ([ice("CH4")], ["CH4"]), ([ice("H")], ["H"])]
                 elif ty == 220:
